@@ -26,6 +26,7 @@ from lib import (COQ, Check, COMMON_TRUSTED, INT_MAX, INT_MIN, NCPU, REPO, compi
                  eval_strings, functions_of, parse_nat_list, run_coq_files)
 from mcvm import VM, Invalid, OutOfFuel
 from c20_translate import Untranslatable, parse_function
+import c20_ctx
 
 PROP = "C20"
 
@@ -1416,6 +1417,8 @@ def main(tier: str) -> int:
                       "of the model's text of each item; every function run in mcvm, every observable target checked",
         correspondence="parsed emitted terms = model terms (decided equality) and pr_cmds(parsed) = emitted text, for every file",
     ))
+    # ---- the statements in a position that takes ONE command (strengthening round 4; placement proved under C02)
+    ck.cov.update(c20_ctx.probe(ck, CERTS, NAMESPACES, score_of, tier))
     return ck.finish()
 
 
@@ -1451,6 +1454,8 @@ def replay_spelling(r) -> int:
 
 def replay(path) -> int:
     r = json.loads(open(path).read())
+    if r.get("mode") == "context":
+        return c20_ctx.replay(r, score_of)
     if r.get("kind") == "sequence-semantic-failure":
         return replay_sequence(r)
     if r.get("kind") == "spelling-differs":
